@@ -48,7 +48,7 @@ INVARIANT VerdictStable
 INVARIANT Dump
 """
 
-UNIVERSES = ("alg", "index", "cond", "deriv", "bfo", "md", "measure", "elem")
+UNIVERSES = ("alg", "index", "cond", "deriv", "bfo", "md", "measure", "elem", "xm")
 JAVA = "-DTLA-Library=" + os.path.join(os.path.dirname(os.path.dirname(os.path.dirname(os.path.abspath(__file__)))), "spec") + " -Xmx3g -Xmn256m -XX:ParallelGCThreads=2 -Dtlc2.tool.queue.IStateQueue=StateDeque"
 
 
@@ -131,6 +131,25 @@ MD_KEYS = {1: "quadrature_degree", 2: "quadrature_rule", 3: "tol", 4: "opts", 5:
 MD_STRS = {1: "default", 2: "vertex", 3: "custom"}
 FAMILIES = {1: "Lagrange", 2: "Discontinuous Lagrange", 3: "Bubble"}
 CMP = {1: "lt", 2: "gt", 3: "le", 4: "ge", 5: "eq", 6: "ne"}
+
+
+@functools.lru_cache(maxsize=None)
+def counted_classes():
+    """class id of the spec (coefs[.][3], csts[.][4]) -> Python class: ufl's own class and user
+    subclasses of it, as a problem solving environment defines them (they share the counter and the
+    numbering of the ufl class: Counted._counted_class)."""
+    import ufl
+
+    class Function(ufl.Coefficient):
+        """A coefficient class of a problem solving environment."""
+
+    class SubFunction(Function):
+        """A subclass of the subclass."""
+
+    class Parameter(ufl.Constant):
+        """A constant class of a problem solving environment."""
+
+    return {"coef": {0: ufl.Coefficient, 1: Function, 2: SubFunction}, "cst": {0: ufl.Constant, 1: Parameter}}
 
 
 @functools.lru_cache(maxsize=None)
@@ -228,19 +247,15 @@ class Build:
 
     def coef(self, c):
         if c not in self._coef:
-            import ufl
-
-            k, e = self.p["coefs"][c - 1]
-            self._coef[c] = ufl.Coefficient(self.space(e), count=self.base + k)
+            k, e, cls = self.p["coefs"][c - 1]
+            self._coef[c] = counted_classes()["coef"][cls](self.space(e), count=self.base + k)
         return self._coef[c]
 
     def cst(self, c):
         if c not in self._cst:
-            import ufl
-
-            k, sh, d = self.p["csts"][c - 1]
+            k, sh, d, cls = self.p["csts"][c - 1]
             g = self.gdim(d)
-            self._cst[c] = ufl.Constant(self.mesh(d), shape=((), (g,), (g, g))[sh], count=self.base + k)
+            self._cst[c] = counted_classes()["cst"][cls](self.mesh(d), shape=((), (g,), (g, g))[sh], count=self.base + k)
         return self._cst[c]
 
     def index(self, name):
@@ -345,9 +360,13 @@ class Build:
         import ufl
 
         pieces = []
-        for itype, sid, md, d, g in self.p["itgs"]:
+        for itype, sid, md, d, g, xm in self.p["itgs"]:
             sub = "everywhere" if sid == [0] else (sid[0] if len(sid) == 1 else tuple(sid))
-            dm = ufl.Measure(ITYPES[itype], domain=self.mesh(d), subdomain_id=sub, metadata=self.md(md))
+            kw = {}
+            if xm:
+                # a multi-domain integral: the intersect measures in the order in which they are written
+                kw["intersect_measures"] = tuple(ufl.Measure(ITYPES[t], domain=self.mesh(x)) for t, x in xm)
+            dm = ufl.Measure(ITYPES[itype], domain=self.mesh(d), subdomain_id=sub, metadata=self.md(md), **kw)
             pieces.append(self.expr(g) * dm)
         return functools.reduce(operator.add, pieces)
 
@@ -370,16 +389,17 @@ def signatures(prog, salt):
 # --------------------------------------------------------------------------------------------
 
 PREFIXES = ("extop-argslot", "extop-operand", "interp-operand")
+RENAMINGS = ("rename-", "swap-commutative", "reorder-", "md-key-order", "subdomain-tuple-order", "intersect-measure-order")
 
 
 def mut_kind(kind):
     """The mutation part of a kind sequence (renamings dropped), as a label."""
-    ks = [k for k in kind if not k.startswith(("rename-", "swap-commutative", "reorder-", "md-key-order", "subdomain-tuple-order"))]
+    ks = [k for k in kind if not k.startswith(RENAMINGS)]
     return ":".join(ks)
 
 
 def ren_kind(kind):
-    ks = [k for k in kind if k.startswith(("rename-", "swap-commutative", "reorder-", "md-key-order", "subdomain-tuple-order"))]
+    ks = [k for k in kind if k.startswith(RENAMINGS)]
     return ":".join(ks)
 
 
@@ -446,7 +466,7 @@ def bfo_only_difference(rep_a, rep_b):
         return None
     out = set()
     for ia, ib in zip(rep_a, rep_b):
-        if ia[:4] != ib[:4]:
+        if ia[:4] != ib[:4] or ia[5] != ib[5]:
             return None
         _diff_terms(ia[4], ib[4], out)
     if not out or "other" in out:
@@ -460,7 +480,7 @@ def norm_label(label):
 
 
 def measures_of(rep):
-    return json.dumps([[i[0], i[1], i[2], i[3]] for i in rep], sort_keys=True)
+    return json.dumps([[i[0], i[1], i[2], i[3], i[5]] for i in rep], sort_keys=True)
 
 
 def check_group(group, salt0, sigfn=signatures, corrupt=None):
@@ -602,6 +622,7 @@ def start_pool():
 
         floats()
         arrays()
+        counted_classes()
         _POOL = multiprocessing.get_context("fork").Pool(8)
 
 
@@ -721,9 +742,10 @@ def fmt_md(t):
 
 def fmt_prog(p):
     out = []
-    for itype, sid, md, d, g in p["itgs"]:
+    for itype, sid, md, d, g, xm in p["itgs"]:
         sub = "" if sid == [0] else (str(sid[0]) if len(sid) == 1 else str(tuple(sid)))
-        out.append(f"{fmt_term(g, p)}*{ITYPES[itype]}({sub}{', ' if sub else ''}domain=m{d}, metadata={fmt_md(md)})")
+        ix = f", intersect_measures=({', '.join(f'{ITYPES[t]}(m{x})' for t, x in xm)},)" if xm else ""
+        out.append(f"{fmt_term(g, p)}*{ITYPES[itype]}({sub}{', ' if sub else ''}domain=m{d}, metadata={fmt_md(md)}{ix})")
     return " + ".join(out)
 
 
@@ -949,8 +971,8 @@ def part_extras(ctx):
 
 DOMS0 = [[1, 2, 1, 4], [1, 2, 1, 7]]
 ELEMS0 = [[1, 1, 0, 1, 1, 0, 1], [1, 2, 0, 1, 1, 0, 1], [1, 1, 1, 1, 1, 0, 1], [1, 1, 2, 1, 1, 0, 1], [1, 1, 0, 1, 1, 0, 2], [1, 2, 1, 1, 1, 0, 1]]
-COEFS0 = [[3, 1], [5, 1], [6, 2], [8, 3], [9, 3], [11, 4], [12, 4], [14, 5]]
-CSTS0 = [[2, 0, 1], [4, 0, 1], [6, 1, 1]]
+COEFS0 = [[3, 1, 0], [5, 1, 1], [6, 2, 0], [8, 3, 1], [9, 3, 2], [11, 4, 0], [12, 4, 0], [14, 5, 0]]
+CSTS0 = [[2, 0, 1, 0], [4, 0, 1, 1], [6, 1, 1, 0]]
 
 
 def _N(op, a=(), s=()):
@@ -1054,7 +1076,9 @@ def random_programs(seed, n):
             g = term(rng.choice([1, 2, 2, 3]))
             if rng.random() < 0.5:
                 g = B("prod", g, _N("arg", [0, 0, 1]))
-            itgs.append({"itype": rng.choice([1, 1, 2, 4]), "sid": rng.choice([[0], [1], [2], [1, 2]]), "md": md(), "dom": rng.choice([1, 1, 2]), "g": g})
+            dom = rng.choice([1, 1, 2])
+            xm = [[rng.choice([1, 2, 3]), 3 - dom]] if rng.random() < 0.25 else []  # a multi-domain integral
+            itgs.append({"itype": rng.choice([1, 1, 2, 4]), "sid": rng.choice([[0], [1], [2], [1, 2]]), "md": md(), "dom": dom, "g": g, "xm": xm})
         p = {"doms": DOMS0, "elems": ELEMS0, "coefs": COEFS0, "csts": CSTS0, "itgs": itgs}
         k = json.dumps(p, sort_keys=True)
         if k not in seen:
@@ -1079,8 +1103,10 @@ REQUIRED_KINDS = (
     "md-str", "md-bool", "md-array", "md-key-rename", "md-key-drop", "md-key-add", "md-list-length", "md-list-order",
     "md-none-to-int", "extop-derivatives", "extop-space", "extop-argslot-dropped", "extop-argslot:coef-identity",
     "extop-argslot:arg-number", "extop-operand:coef-identity", "interp-space", "interp-operand:coef-identity",
+    "xmeasure-type", "xmeasure-domain", "xmeasure-dropped", "xmeasure-added",
     "rename-free-indices", "rename-labels", "rename-coefficient-counts", "rename-constant-counts", "rename-mesh-ids",
-    "swap-commutative-operands", "reorder-integrals", "md-key-order", "subdomain-tuple-order",
+    "rename-coefficient-classes-uniform", "rename-coefficient-classes-shift", "rename-constant-classes",
+    "swap-commutative-operands", "reorder-integrals", "md-key-order", "subdomain-tuple-order", "intersect-measure-order",
 )  # fmt: skip
 
 
